@@ -24,7 +24,13 @@ ParSide(c, reg) == IF SideOf(reg) = "l" THEN [gm1 |-> c.par.gm1l, gamma |-> c.pa
                                         ELSE [gm1 |-> c.par.gm1r, gamma |-> c.par.gammar]
 EosClauses(c, e) ==
   LET row == RowOf(c) t == TolOf(c).sl IN
-  CASE e.reg = "vacuum"     -> {}            \* documented vacuum: rho = p = 0, the specific energy is undefined
+  CASE e.reg = "vacuum" \/ (row.eos = "suolson" /\ ~Has(e.v, "u")) -> {}            \* documented vacuum: rho = p = 0, the specific energy is undefined
+    [] row.eos = "suolson" ->                \* the dimensionless variables follow from the user's opacity, alpha and boundary temperature
+            Chk("SUOL.conversion.epsilon", Same(c.par.eps, Div(SL_4a, c.par.alpha), 5))
+       \cup Chk("SUOL.conversion.x", Same(c.par.dxdz, Mul(SL_rt3, c.par.opac), 5))
+       \cup Chk("SUOL.conversion.tau", Same(c.par.dtaudt, Div(Mul(SL_4ac, c.par.opac), c.par.alpha), 5))
+       \cup Chk("SUOL.conversion.u", Same(e.v.u, PowQ(Div(e.v.Tr, c.par.Tbc), <<4, 1>>), 20))
+       \cup Chk("SUOL.conversion.v", Same(e.v.vv, PowQ(Div(e.v.Tm, c.par.Tbc), <<4, 1>>), 20))
     [] row.eos = "cjisentrope" ->            \* products of a CJ detonation: c^2 = gamma p / rho on the isentrope p/p_cj = (rho/rho_cj)^gamma
             Chk("EOS.c2=g.p/rho", Same(Sq(e.v.c), Div(Mul(c.par.gamma, e.v.p), e.v.rho), 2 * t))
        \cup Chk("EOS.cj-isentrope", Same(Div(e.v.p, c.par.pcj), PowQ(Div(e.v.rho, c.par.rhocj), c.par.gammaQ), 4 * t))
